@@ -215,12 +215,23 @@ func evaluate(tabs *schema.Tables, p *schema.Prog, full bool) (o outcome) {
 		}
 	}
 	if full {
-		canonSpec, ok, diag := llvmoracle.Canon(o.specText)
+		// LLVM 14 accepts and verifies a basic block passed as a call argument or bundle input, but its
+		// bitcode cannot hold one (llvm-dis: "Invalid record"): such programs are judged by llvm-as'
+		// verdict and the library's parser only, not by the llvm-dis comparison
+		noDis := strings.Contains(p.ID, "/labelarg/")
+		canon := llvmoracle.Canon
+		if noDis {
+			canon = func(text string) (string, bool, string) {
+				ok, diag := llvmoracle.Accepts(text)
+				return "", ok, diag
+			}
+		}
+		canonSpec, ok, diag := canon(o.specText)
 		if !ok {
 			o.discard = "LLVM rejects the template rendering: " + strings.Split(diag, "\n")[0]
 			return
 		}
-		canonLib, ok, diag := llvmoracle.Canon(o.libText)
+		canonLib, ok, diag := canon(o.libText)
 		if !ok {
 			o.disagree = true
 			line := offendingLine(o.libText, diag)
